@@ -21,7 +21,7 @@ import (
 func init() {
 	core.Register(&core.Simple{
 		Id: "C11", Lvl: "exploration", Quick: 220, Thorough: 6000, PerBatch: 55, Width: 55, Timeout: 2400,
-		RuleText: "each case is a history of 20-40 file-management requests through the real connection loop on a generated tree (names over ASCII and Mac-Roman high bytes incl. names that merely contain '.incomplete', spaces, 1..60 bytes; not starting with '.' or '@'): rename, move, delete, new folder (also onto an existing name), alias, set-comment on files and folders (an eighth of the comments 4-9 KB long), upload started and cut (partial file), and move/rename attempts on a partial by its listed name; destination names never collide. After every step a reference namespace model is compared with: the file list of every folder (exactly the model's entries, partials under their final name, folder item counts, sizes), get-info and the download reply of every complete file (size and type agree with the list and with the bytes on disk; comment), and the directory contents (side files .info_/.rsrc_/.incomplete travel or vanish with their file, no orphans). distinct = multiset of operation kinds; non-trivial = history has a rename/move/delete of a file that owns a side file or a partial",
+		RuleText: "each case is a history of 20-40 file-management requests through the real connection loop on a generated tree (names over ASCII and Mac-Roman high bytes incl. names that merely contain '.incomplete', spaces, 1..60 bytes; not starting with '.' or '@'): rename, move, delete, new folder (also onto an existing name), alias, set-comment on files and folders (an eighth of the comments 4-9 KB long), upload started and cut (partial file), and move/rename attempts on a partial by its listed name; destination names never collide. In a quarter of the cases operator-configured ignore patterns are in force and matching files lie in every folder (never listed, never counted). After every step a reference namespace model is compared with: the file list of every folder (exactly the model's entries, partials under their final name, folder item counts, sizes), get-info and the download reply of every complete file (size and type agree with the list and with the bytes on disk; comment), and the directory contents (side files .info_/.rsrc_/.incomplete travel or vanish with their file, no orphans). distinct = multiset of operation kinds; non-trivial = history has a rename/move/delete of a file that owns a side file or a partial",
 		Case:     runCase,
 	})
 }
@@ -557,10 +557,21 @@ func runCase(c *core.Case) {
 		}
 	}
 	build(w.root, 2)
-	srv, err := fixture.New(fixture.Options{PreserveForks: r.Bool(), Files: func(root string) {
+	// in a quarter of the cases the operator has configured ignore patterns of his own, and files matching them lie in
+	// the folders: they are never listed and never counted
+	var ignore []string
+	if c.Index%4 == 2 {
+		ignore = []string{`^\.`, `\.IGNORED~$`, `^Thumbs\.db$`}
+		c.Count("cases_with_configured_ignore_patterns", 1)
+	}
+	srv, err := fixture.New(fixture.Options{PreserveForks: r.Bool(), IgnoreFiles: ignore, Files: func(root string) {
 		var wr func(e *ent)
 		wr = func(e *ent) {
 			os.MkdirAll(e.disk(root), 0755)
+			if ignore != nil {
+				os.WriteFile(filepath.Join(e.disk(root), "Thumbs.db"), []byte("x"), 0644)
+				os.WriteFile(filepath.Join(e.disk(root), "left over.IGNORED~"), []byte("yy"), 0644)
+			}
 			for _, k := range e.kids {
 				if k.dir {
 					wr(k)
